@@ -57,6 +57,10 @@ Arguments aset : simpl never.
 Arguments set2 : simpl never.
 Arguments vdel2 : simpl never.
 
+Ltac case_eqb a b :=
+  let E := fresh "E" in
+  destruct (a =? b) eqn:E; [apply N.eqb_eq in E; subst|apply N.eqb_neq in E].
+
 Ltac eqb_cases :=
   repeat match goal with
          | H : context [?a =? ?b] |- _ =>
@@ -205,4 +209,525 @@ Proof.
   destruct (q_valid (q_cfg st) s x); cbn; [|reflexivity].
   destruct (aget (q_v2s st) (pk s x)) as [e|]; [destruct (e =? id)|]; cbn; try reflexivity;
   rewrite aget_aset; destruct (id =? id') eqn:E; try reflexivity; apply N.eqb_eq in E; congruence.
+Qed.
+
+(* ------------------------------------------------------------------ circuit-id key *)
+Lemma ckey_length l : length (ckey l) = 32%nat.
+Proof. unfold ckey, ckey_len. rewrite app_length, firstn_length, repeat_length. lia. Qed.
+
+Lemma ckey_short l : (length l <= 32)%nat -> ckey l = l ++ repeat 0 (32 - length l).
+Proof. intros H. unfold ckey, ckey_len. rewrite firstn_all2 by exact H. reflexivity. Qed.
+
+Lemma tz_app_zero p : trailing_zero (p ++ [0]) = true.
+Proof. unfold trailing_zero. rewrite rev_app_distr. reflexivity. Qed.
+
+Lemma tz_cons x l : trailing_zero (x :: l) = false -> trailing_zero l = false.
+Proof.
+  unfold trailing_zero. cbn. destruct (rev l) as [|y t] eqn:E; [reflexivity|].
+  cbn. destruct y; auto.
+Qed.
+
+Lemma all_zero_tz l : l <> [] -> Forall (fun x => x = 0) l -> trailing_zero l = true.
+Proof.
+  intros Hn Hz. destruct (exists_last Hn) as (p & z & ->).
+  apply Forall_app in Hz. destruct Hz as [_ Hz]. inversion Hz; subst. apply tz_app_zero.
+Qed.
+
+Lemma repeat_zero_forall n : Forall (fun x => x = 0) (repeat 0 n).
+Proof. induction n; cbn; constructor; auto. Qed.
+
+Lemma pad_inj a : forall b n m,
+  trailing_zero a = false -> trailing_zero b = false ->
+  a ++ repeat 0 n = b ++ repeat 0 m -> a = b.
+Proof.
+  induction a as [|x a IH]; intros [|y b] n m Ha Hb H.
+  - reflexivity.
+  - exfalso. cbn in H. assert (Hz : Forall (fun x => x = 0) ((y :: b) ++ repeat 0 m)).
+    { cbn. rewrite <- H. apply repeat_zero_forall. }
+    apply Forall_app in Hz. destruct Hz as [Hz _].
+    rewrite (all_zero_tz (y :: b)) in Hb; [discriminate|discriminate|exact Hz].
+  - exfalso. cbn in H. assert (Hz : Forall (fun x => x = 0) ((x :: a) ++ repeat 0 n)).
+    { cbn. rewrite H. apply repeat_zero_forall. }
+    apply Forall_app in Hz. destruct Hz as [Hz _].
+    rewrite (all_zero_tz (x :: a)) in Ha; [discriminate|discriminate|exact Hz].
+  - cbn in H. inversion H; subst. f_equal. eapply IH; eauto using tz_cons.
+Qed.
+
+Theorem ckey_injective_partial : forall a b,
+  (length a <= 32)%nat -> (length b <= 32)%nat ->
+  trailing_zero a = false -> trailing_zero b = false ->
+  ckey a = ckey b -> a = b.
+Proof.
+  intros a b La Lb Ta Tb H. rewrite !ckey_short in H by assumption. eapply pad_inj; eauto.
+Qed.
+
+Definition ckey_injective : Prop := forall a b, ckey a = ckey b -> a = b.
+
+Theorem ckey_injective_refuted_padding : ~ ckey_injective.
+Proof. intros H. specialize (H [1] [1; 0] eq_refl). discriminate. Qed.
+
+(* truncation: two 33-byte circuit-ids that differ only in the last byte *)
+Theorem ckey_injective_refuted_truncation :
+  exists a b, length a = 33%nat /\ length b = 33%nat /\ trailing_zero a = false /\ trailing_zero b = false /\
+              a <> b /\ ckey a = ckey b.
+Proof.
+  exists (repeat 7 32 ++ [1]), (repeat 7 32 ++ [2]). repeat split; try reflexivity.
+  intros H. apply app_inv_head in H. discriminate.
+Qed.
+
+(* ------------------------------------------------------------------ pppoe.SessionManager *)
+Definition s_next_st (st : sst) (o : sop) : sst := fst (fst (s_step st o)).
+Definition s_run (st : sst) (ops : list sop) : sst := fold_left s_next_st ops st.
+
+Definition sid (x : N * N * N) : N := snd (fst x).
+Definition shold (x : N * N * N) : N := fst (fst x).
+Definition smac (x : N * N * N) : N := snd x.
+
+Record s_inv (st : sst) : Prop := {
+  si_next : 1 <= s_next st <= 65535;
+  si_ids : forall id x, aget (s_sess st) id = Some x -> 1 <= id <= 65535;
+  si_live : forall x, In x (s_live st) -> aget (s_sess st) (sid x) = Some (shold x, smac x);
+  si_sess : forall id h mac, aget (s_sess st) id = Some (h, mac) -> In (h, id, mac) (s_live st) }.
+
+Lemma u16_lt x : u16 x < 65536.
+Proof. unfold u16, W16. apply N.mod_lt. discriminate. Qed.
+
+Lemma scan_id_spec fuel sess : forall n id,
+  1 <= n <= 65535 -> scan_id fuel sess n = Some id -> aget sess id = None /\ 1 <= id <= 65535.
+Proof.
+  induction fuel as [|f IH]; intros n id Hn H; cbn in H; [discriminate|].
+  destruct (amem sess n) eqn:E.
+  - apply IH in H; [exact H|]. pose proof (u16_lt (n + 1)).
+    destruct (u16 (n + 1) =? 0) eqn:E0; [lia|]. apply N.eqb_neq in E0. lia.
+  - inversion H; subst. split; [apply amem_false; exact E|exact Hn].
+Qed.
+
+Lemma s_init_inv next pids pmacs : 1 <= next <= 65535 -> s_inv (s_init next pids pmacs).
+Proof. intros H. split; cbn; try (intros; discriminate); try (intros; contradiction). exact H. Qed.
+
+Lemma s_step_inv st o : s_inv st -> s_inv (s_next_st st o).
+Proof.
+  intros [Hn Hi Hl Hs]. unfold s_next_st, s_step. destruct o as [h mac|id].
+  - destruct (session_cap <=? N.of_nat (length (s_sess st))); [split; assumption|].
+    destruct (scan_id (N.to_nat 65536) (s_sess st) (s_next st)) as [id|] eqn:Es; [|split; assumption].
+    destruct (scan_id_spec _ _ _ _ Hn Es) as [Hfree Hid]. cbn. split; cbn.
+    + pose proof (u16_lt (id + 1)). destruct (u16 (id + 1) =? 0) eqn:E0; [lia|]. apply N.eqb_neq in E0. lia.
+    + intros i x. rewrite aget_aset. destruct (id =? i) eqn:E; [apply N.eqb_eq in E; subst; intros _; exact Hid|apply Hi].
+    + intros x Hx. rewrite aget_aset. apply in_app_or in Hx. destruct Hx as [Hx|[<-|[]]].
+      * destruct (id =? sid x) eqn:E; [|apply Hl, Hx]. apply N.eqb_eq in E. subst id.
+        rewrite (Hl x Hx) in Hfree. discriminate.
+      * unfold sid, shold, smac; cbn. rewrite N.eqb_refl. reflexivity.
+    + intros i h' m'. rewrite aget_aset. destruct (id =? i) eqn:E.
+      * apply N.eqb_eq in E; subst i. intros H; inversion H; subst. apply in_or_app. right. left. reflexivity.
+      * intros H. apply in_or_app. left. apply Hs, H.
+  - destruct (aget (s_sess st) id) as [[h mac]|] eqn:E; cbn; split; cbn; try assumption.
+    + intros i x. rewrite aget_adel. destruct (id =? i); [discriminate|apply Hi].
+    + intros x Hx. apply filter_In in Hx. destruct Hx as [Hx Hne]. rewrite aget_adel.
+      fold (sid x) in Hne. destruct (sid x =? id) eqn:E1; [discriminate|].
+      rewrite N.eqb_sym, E1. apply Hl, Hx.
+    + intros i h' m'. rewrite aget_adel. destruct (id =? i) eqn:E1; [discriminate|]. intros H.
+      apply filter_In. split; [apply Hs, H|]. cbn. rewrite N.eqb_sym, E1. reflexivity.
+    + intros x Hx. apply filter_In in Hx. apply Hl, Hx.
+    + intros i h' m' H. apply filter_In. split; [apply Hs, H|]. cbn.
+      destruct (i =? id) eqn:E1; [|reflexivity]. apply N.eqb_eq in E1; subst i. congruence.
+Qed.
+
+Lemma s_run_inv ops : forall st, s_inv st -> s_inv (s_run st ops).
+Proof. induction ops as [|o ops IH]; intros st I; cbn; [exact I|]. apply IH, s_step_inv, I. Qed.
+
+(* every live session has its own non-zero 16-bit id, and GetSession(id) returns that session *)
+Theorem session_ids_unique : forall next pids pmacs ops,
+  1 <= next <= 65535 ->
+  let st := s_run (s_init next pids pmacs) ops in
+  (forall x y, In x (s_live st) -> In y (s_live st) -> sid x = sid y -> x = y) /\
+  (forall x, In x (s_live st) -> 1 <= sid x <= 65535 /\ aget (s_sess st) (sid x) = Some (shold x, smac x)) /\
+  (forall id h mac, aget (s_sess st) id = Some (h, mac) -> In (h, id, mac) (s_live st)).
+Proof.
+  intros next pids pmacs ops Hn st.
+  pose proof (s_run_inv ops _ (s_init_inv next pids pmacs Hn)) as [H1 H2 H3 H4]. fold st in H1, H2, H3, H4.
+  split; [|split].
+  - intros [[h i] m] [[h' i'] m'] Hx Hy E. pose proof (H3 _ Hx) as Ex. pose proof (H3 _ Hy) as Ey.
+    unfold sid, shold, smac in *; cbn in *. subst i'. rewrite Ex in Ey. congruence.
+  - intros x Hx. split; [eapply H2, H3, Hx|apply H3, Hx].
+  - exact H4.
+Qed.
+
+(* a freshly created session never receives the id of a live one *)
+Theorem session_create_fresh : forall next pids pmacs ops h mac id,
+  1 <= next <= 65535 ->
+  let st := s_run (s_init next pids pmacs) ops in
+  o_ret (snd (fst (s_step st (SCreate h mac)))) = RKey id ->
+  aget (s_sess st) id = None /\ 1 <= id <= 65535.
+Proof.
+  intros next pids pmacs ops h mac id Hn st H.
+  pose proof (s_run_inv ops _ (s_init_inv next pids pmacs Hn)) as I. fold st in I.
+  unfold s_step in H. destruct (session_cap <=? N.of_nat (length (s_sess st))); [discriminate|].
+  destruct (scan_id (N.to_nat 65536) (s_sess st) (s_next st)) as [i|] eqn:Es; [|discriminate].
+  cbn in H. inversion H; subst. eapply scan_id_spec; [apply (si_next st I)|exact Es].
+Qed.
+
+(* MAC index: refuted in general (two sessions from one MAC), proved when live sessions have distinct MACs *)
+Definition s_guard (st : sst) (o : sop) : bool :=
+  match o with
+  | SCreate _ mac => negb (existsb (fun x => smac x =? mac) (s_live st))
+  | SRemove _ => true
+  end.
+Fixpoint s_run_g (st : sst) (ops : list sop) : option sst :=
+  match ops with
+  | [] => Some st
+  | o :: tl => if s_guard st o then s_run_g (s_next_st st o) tl else None
+  end.
+
+Definition mac_index_agrees (st : sst) : Prop :=
+  forall x, In x (s_live st) -> aget (s_mac st) (smac x) = Some (sid x).
+
+Theorem session_mac_index_agrees_refuted :
+  exists ops, ~ mac_index_agrees (s_run (s_init 1 [] []) ops).
+Proof.
+  exists [SCreate 0 7; SCreate 1 7; SRemove 2]. intros H.
+  specialize (H (0, 1, 7) (or_introl eq_refl)). vm_compute in H. discriminate.
+Qed.
+
+Record m_inv (st : sst) : Prop := {
+  mi_s : s_inv st;
+  mi_fwd : mac_index_agrees st;
+  mi_rev : forall mac id, aget (s_mac st) mac = Some id -> exists h, In (h, id, mac) (s_live st);
+  mi_nodup : forall x y, In x (s_live st) -> In y (s_live st) -> smac x = smac y -> x = y }.
+
+Lemma m_step_inv st o : m_inv st -> s_guard st o = true -> m_inv (s_next_st st o).
+Proof.
+  intros [I F R D] G. pose proof (s_step_inv st o I) as I'. split; [exact I'| | |]; clear I';
+  destruct I as [Hn Hi Hl Hs]; unfold s_next_st, s_step in *; destruct o as [h mac|id].
+  - destruct (session_cap <=? N.of_nat (length (s_sess st))); [exact F|].
+    destruct (scan_id (N.to_nat 65536) (s_sess st) (s_next st)) as [id|] eqn:Es; [|exact F].
+    cbn. intros x Hx. cbn in Hx |- *. rewrite aget_aset. apply in_app_or in Hx. destruct Hx as [Hx|[<-|[]]].
+    + destruct (mac =? smac x) eqn:E; [|apply F, Hx]. apply N.eqb_eq in E. cbn in G.
+      apply negb_true_iff in G. rewrite <- not_true_iff_false in G. exfalso. apply G.
+      apply existsb_exists. exists x. split; [exact Hx|]. rewrite E. apply N.eqb_refl.
+    + unfold smac, sid; cbn. rewrite N.eqb_refl. reflexivity.
+  - destruct (aget (s_sess st) id) as [[h mac]|] eqn:E; cbn.
+    + intros x Hx. cbn in Hx |- *. apply filter_In in Hx. destruct Hx as [Hx Hne]. rewrite aget_adel.
+      destruct (mac =? smac x) eqn:E1; [|apply F, Hx]. apply N.eqb_eq in E1. exfalso.
+      pose proof (Hs _ _ _ E) as Hin. pose proof (D _ _ Hin Hx E1) as Heq. subst x.
+      unfold sid in Hne; cbn in Hne. rewrite N.eqb_refl in Hne. discriminate.
+    + intros x Hx. cbn in Hx |- *. apply filter_In in Hx. apply F, Hx.
+  - destruct (session_cap <=? N.of_nat (length (s_sess st))); [exact R|].
+    destruct (scan_id (N.to_nat 65536) (s_sess st) (s_next st)) as [id|] eqn:Es; [|exact R].
+    cbn. intros m i. rewrite aget_aset. destruct (mac =? m) eqn:E.
+    + apply N.eqb_eq in E; subst m. intros H; inversion H; subst. exists h. apply in_or_app. right. left. reflexivity.
+    + intros H. destruct (R _ _ H) as [h' Hh]. exists h'. apply in_or_app. left. exact Hh.
+  - destruct (aget (s_sess st) id) as [[h mac]|] eqn:E; cbn.
+    + intros m i. rewrite aget_adel. destruct (mac =? m) eqn:E1; [discriminate|]. intros H.
+      destruct (R _ _ H) as [h' Hh]. exists h'. apply filter_In. split; [exact Hh|]. cbn.
+      destruct (i =? id) eqn:E2; [|reflexivity]. apply N.eqb_eq in E2; subst i.
+      pose proof (Hl _ Hh) as Hx. unfold sid, shold, smac in Hx; cbn in Hx. rewrite E in Hx. inversion Hx; subst.
+      rewrite N.eqb_refl in E1. discriminate.
+    + intros m i H. destruct (R _ _ H) as [h' Hh]. exists h'. apply filter_In. split; [exact Hh|]. cbn.
+      destruct (i =? id) eqn:E2; [|reflexivity]. apply N.eqb_eq in E2; subst i.
+      pose proof (Hl _ Hh) as Hx. unfold sid in Hx; cbn in Hx. congruence.
+  - destruct (session_cap <=? N.of_nat (length (s_sess st))); [exact D|].
+    destruct (scan_id (N.to_nat 65536) (s_sess st) (s_next st)) as [id|] eqn:Es; [|exact D].
+    cbn. cbn in G. apply negb_true_iff in G.
+    assert (Hno : forall x, In x (s_live st) -> smac x <> mac).
+    { intros x Hx Heq. rewrite <- not_true_iff_false in G. apply G. apply existsb_exists. exists x.
+      split; [exact Hx|]. rewrite Heq. apply N.eqb_refl. }
+    intros x y Hx Hy Exy. apply in_app_or in Hx. apply in_app_or in Hy.
+    destruct Hx as [Hx|[<-|[]]]; destruct Hy as [Hy|[<-|[]]].
+    + apply D; assumption.
+    + exfalso. apply (Hno x Hx). exact Exy.
+    + exfalso. apply (Hno y Hy). symmetry. exact Exy.
+    + reflexivity.
+  - destruct (aget (s_sess st) id) as [[h mac]|] eqn:E; cbn;
+    intros x y Hx Hy Exy; apply filter_In in Hx; apply filter_In in Hy; apply D; tauto.
+Qed.
+
+Lemma m_run_inv ops : forall st st', m_inv st -> s_run_g st ops = Some st' -> m_inv st'.
+Proof.
+  induction ops as [|o ops IH]; intros st st' I H; cbn in H.
+  - inversion H; subst; exact I.
+  - destruct (s_guard st o) eqn:G; [|discriminate]. eapply IH; [|exact H]. apply m_step_inv; assumption.
+Qed.
+
+Theorem session_mac_index_agrees_partial : forall next pids pmacs ops st,
+  1 <= next <= 65535 ->
+  s_run_g (s_init next pids pmacs) ops = Some st ->
+  (forall x, In x (s_live st) -> aget (s_mac st) (smac x) = Some (sid x)) /\
+  (forall mac id, aget (s_mac st) mac = Some id -> exists h, In (h, id, mac) (s_live st)).
+Proof.
+  intros next pids pmacs ops st Hn H.
+  assert (I0 : m_inv (s_init next pids pmacs)).
+  { split; [apply s_init_inv, Hn| | |]; unfold mac_index_agrees; cbn; try (intros; contradiction); intros; discriminate. }
+  destruct (m_run_inv ops _ _ I0 H) as [_ F R _]. split; [exact F|exact R].
+Qed.
+
+Lemma s_run_g_run ops : forall st st', s_run_g st ops = Some st' -> st' = s_run st ops.
+Proof.
+  induction ops as [|o ops IH]; intros st st' H; cbn in H.
+  - inversion H; reflexivity.
+  - destruct (s_guard st o); [|discriminate]. apply IH, H.
+Qed.
+
+(* ------------------------------------------------------------------ nexus.VLANAllocator *)
+Definition v_next (st : vst) (o : vop) : vst := fst (fst (v_step st o)).
+Definition v_run (st : vst) (ops : list vop) : vst := fold_left v_next ops st.
+Definition v_wf (c : vcfg) : Prop := v_ss c <= v_se c /\ v_cs c <= v_ce c.
+
+Record v_inv (st : vst) : Prop := {
+  vi_bij : forall n s c, aget (v_alloc st) n = Some (s, c) <-> get2 (v_usage st) s c = Some n;
+  vi_rng : forall n s c, aget (v_alloc st) n = Some (s, c) -> in_s (v_cfg st) s = true /\ in_c (v_cfg st) c = true;
+  vi_cur : v_ss (v_cfg st) <= v_cur st <= v_se (v_cfg st) }.
+
+Lemma seqN_In n : forall a x, In x (seqN a n) <-> a <= x < a + N.of_nat n.
+Proof.
+  induction n as [|n IH]; intros a x; cbn -[N.of_nat]; [lia|].
+  rewrite IH. lia.
+Qed.
+
+Lemma rangeN_In a e x : In x (rangeN a e) <-> a <= x <= e.
+Proof.
+  unfold rangeN. destruct (a <=? e) eqn:E.
+  - rewrite seqN_In. lia.
+  - cbn. lia.
+Qed.
+
+Lemma find_c_spec st s c :
+  v_cs (v_cfg st) <= v_ce (v_cfg st) -> find_c st s = Some c ->
+  in_c (v_cfg st) c = true /\ get2 (v_usage st) s c = None.
+Proof.
+  intros Hw H. unfold find_c in H. unfold get2, in_c. destruct (aget (v_usage st) s) as [u|] eqn:Eu.
+  - apply find_some in H. destruct H as [Hin Hf]. apply rangeN_In in Hin.
+    apply negb_true_iff, amem_false in Hf. split; [lia|exact Hf].
+  - inversion H; subst. split; [lia|reflexivity].
+Qed.
+
+Lemma find_c_none st s x :
+  find_c st s = None -> in_c (v_cfg st) x = true -> get2 (v_usage st) s x <> None.
+Proof.
+  intros H Hx. unfold find_c in H. unfold get2. destruct (aget (v_usage st) s) as [u|]; [|discriminate].
+  pose proof (find_none _ _ H x) as Hn. unfold in_c in Hx.
+  assert (Hin : In x (rangeN (v_cs (v_cfg st)) (v_ce (v_cfg st)))) by (apply rangeN_In; lia).
+  apply Hn in Hin. apply negb_false_iff in Hin. unfold amem in Hin. destruct (aget u x); congruence.
+Qed.
+
+Lemma first_s_spec st l : forall s c, first_s st l = Some (s, c) -> In s l /\ find_c st s = Some c.
+Proof.
+  induction l as [|a l IH]; intros s c H; cbn in H; [discriminate|].
+  destruct (find_c st a) as [c0|] eqn:E.
+  - inversion H; subst. split; [left; reflexivity|exact E].
+  - apply IH in H. destruct H; split; [right|]; assumption.
+Qed.
+
+Lemma first_s_none st l : first_s st l = None -> forall s, In s l -> find_c st s = None.
+Proof.
+  induction l as [|a l IH]; intros H s Hs; cbn in H; [contradiction|].
+  destruct (find_c st a) eqn:E; [discriminate|]. destruct Hs as [<-|Hs]; [exact E|apply IH; assumption].
+Qed.
+
+Lemma find_avail_spec st s c :
+  v_cs (v_cfg st) <= v_ce (v_cfg st) -> v_ss (v_cfg st) <= v_cur st <= v_se (v_cfg st) ->
+  find_avail st = Some (s, c) ->
+  in_s (v_cfg st) s = true /\ in_c (v_cfg st) c = true /\ get2 (v_usage st) s c = None.
+Proof.
+  intros Hw Hc H. unfold find_avail in H.
+  destruct (first_s st (rangeN (v_cur st) (v_se (v_cfg st)))) as [[s0 c0]|] eqn:E1.
+  - inversion H; subst. apply first_s_spec in E1. destruct E1 as [Hin Hf]. apply rangeN_In in Hin.
+    apply find_c_spec in Hf; [|exact Hw]. unfold in_s. split; [lia|exact Hf].
+  - apply first_s_spec in H. destruct H as [Hin Hf]. apply find_c_spec in Hf; [|exact Hw].
+    destruct (v_cur st =? 0) eqn:E0; [contradiction|]. apply N.eqb_neq in E0. apply rangeN_In in Hin.
+    unfold in_s. split; [lia|exact Hf].
+Qed.
+
+(* Exhausted is answered only when every pair of the configured ranges is held *)
+Lemma find_avail_none st s x :
+  v_ss (v_cfg st) <= v_cur st <= v_se (v_cfg st) ->
+  find_avail st = None -> in_s (v_cfg st) s = true -> in_c (v_cfg st) x = true ->
+  get2 (v_usage st) s x <> None.
+Proof.
+  intros Hc H Hs Hx. unfold find_avail in H.
+  destruct (first_s st (rangeN (v_cur st) (v_se (v_cfg st)))) eqn:E1; [discriminate|].
+  unfold in_s in Hs. destruct (v_cur st <=? s) eqn:Ec.
+  - apply (find_c_none st s x); [|exact Hx]. apply (first_s_none _ _ E1). apply rangeN_In. lia.
+  - apply (find_c_none st s x); [|exact Hx]. apply (first_s_none _ _ H).
+    destruct (v_cur st =? 0) eqn:E0; [lia|]. apply rangeN_In. lia.
+Qed.
+
+Lemma v_record_inv st n s c :
+  v_inv st -> in_s (v_cfg st) s = true -> in_c (v_cfg st) c = true ->
+  get2 (v_usage st) s c = None -> aget (v_alloc st) n = None -> v_inv (v_record st n s c).
+Proof.
+  intros [B R C] Hs Hc Hfree Hn. split; cbn.
+  - intros n' s' c'. rewrite aget_aset, get2_set2.
+    case_eqb n n'; case_eqb s s'; try case_eqb c c'; cbn;
+    first [apply B | split; intros H; solve [congruence | apply B in H; congruence]].
+  - intros n' s' c'. rewrite aget_aset. destruct (n =? n'); [|apply R].
+    intros H; inversion H; subst. split; assumption.
+  - exact C.
+Qed.
+
+Lemma v_setcur_inv st cur :
+  v_inv st -> v_ss (v_cfg st) <= cur <= v_se (v_cfg st) -> v_inv (v_with st (v_alloc st) (v_usage st) cur).
+Proof. intros [B R C] H. split; cbn; assumption. Qed.
+
+Lemma v_release_usage st n s c s' c' :
+  aget (v_alloc st) n = Some (s, c) ->
+  get2 (v_usage (v_release st n)) s' c' = if (s =? s') && (c =? c') then None else get2 (v_usage st) s' c'.
+Proof. intros H. unfold v_release. rewrite H. cbn. apply get2_vdel2. Qed.
+
+Lemma v_release_inv st n : v_inv st -> v_inv (v_release st n).
+Proof.
+  intros [B R C]. unfold v_release. destruct (aget (v_alloc st) n) as [[s c]|] eqn:E; [|split; assumption].
+  pose proof (proj1 (B _ _ _) E) as E'.
+  split; cbn.
+  - intros n' s' c'. rewrite aget_adel, get2_vdel2.
+    case_eqb n n'; case_eqb s s'; try case_eqb c c'; cbn;
+    first [apply B | split; intros H; solve [congruence | apply B in H; congruence]].
+  - intros n' s' c'. rewrite aget_adel. destruct (n =? n'); [discriminate|apply R].
+  - exact C.
+Qed.
+
+Lemma v_release_cfg st n : v_cfg (v_release st n) = v_cfg st.
+Proof. unfold v_release. destruct (aget (v_alloc st) n) as [[s c]|]; reflexivity. Qed.
+
+Lemma v_release_none st n : aget (v_alloc (v_release st n)) n = None.
+Proof.
+  unfold v_release. destruct (aget (v_alloc st) n) as [[s c]|] eqn:E; [|exact E].
+  cbn. rewrite aget_adel, N.eqb_refl. reflexivity.
+Qed.
+
+Lemma v_release_keeps_free st n s c :
+  get2 (v_usage st) s c = None -> get2 (v_usage (v_release st n)) s c = None.
+Proof.
+  intros H. destruct (aget (v_alloc st) n) as [[s0 c0]|] eqn:E.
+  - rewrite (v_release_usage st n s0 c0 s c E). destruct ((s0 =? s) && (c0 =? c)); [reflexivity|exact H].
+  - unfold v_release. rewrite E. exact H.
+Qed.
+
+(* release n, then record (s, c) for n, on a state where (s, c) is free or held by n itself *)
+Lemma v_rebind_inv st n s c :
+  v_inv st -> in_s (v_cfg st) s = true -> in_c (v_cfg st) c = true ->
+  (get2 (v_usage st) s c = None \/ get2 (v_usage st) s c = Some n) ->
+  v_inv (v_record (v_release st n) n s c).
+Proof.
+  intros I Hs Hc Hfree. apply v_record_inv.
+  - apply v_release_inv, I.
+  - rewrite v_release_cfg. exact Hs.
+  - rewrite v_release_cfg. exact Hc.
+  - destruct Hfree as [H|H]; [apply v_release_keeps_free, H|].
+    pose proof (proj2 (vi_bij st I n s c) H) as Ha.
+    rewrite (v_release_usage st n s c s c Ha), !N.eqb_refl. reflexivity.
+  - apply v_release_none.
+Qed.
+
+Lemma v_load1_inv acc r : v_inv (fst acc) -> v_inv (fst (v_load1 acc r)).
+Proof.
+  destruct acc as [st bad]. destruct r as [[n s] c]. cbn [fst]. intros I. unfold v_load1.
+  destruct ((s =? 0) || (c =? 0)); [exact I|].
+  destruct (in_s (v_cfg st) s && in_c (v_cfg st) c) eqn:Er; cbn [negb]; [|exact I].
+  apply andb_true_iff in Er. destruct Er as [Hs Hc].
+  destruct (get2 (v_usage st) s c) as [o|] eqn:Eo.
+  - destruct (o =? n) eqn:E; [|exact I]. apply N.eqb_eq in E; subst o. cbn [fst].
+    apply v_rebind_inv; auto.
+  - cbn [fst]. apply v_rebind_inv; auto.
+Qed.
+
+Lemma v_load1_cfg acc r : v_cfg (fst (v_load1 acc r)) = v_cfg (fst acc).
+Proof.
+  destruct acc as [st bad]. destruct r as [[n s] c]. cbn [fst]. unfold v_load1.
+  destruct ((s =? 0) || (c =? 0)); [reflexivity|].
+  destruct (negb (in_s (v_cfg st) s && in_c (v_cfg st) c)); [reflexivity|].
+  destruct (get2 (v_usage st) s c) as [o|]; [destruct (o =? n)|]; cbn [fst]; try reflexivity;
+  unfold v_record; cbn; apply v_release_cfg.
+Qed.
+
+Lemma v_load_inv l : forall acc, v_inv (fst acc) ->
+  v_inv (fst (fold_left v_load1 l acc)) /\ v_cfg (fst (fold_left v_load1 l acc)) = v_cfg (fst acc).
+Proof.
+  induction l as [|r l IH]; intros acc I; cbn; [split; [exact I|reflexivity]|].
+  destruct (IH (v_load1 acc r) (v_load1_inv acc r I)) as [I' C'].
+  split; [exact I'|]. rewrite C'. apply v_load1_cfg.
+Qed.
+
+Lemma v_step_inv st o :
+  v_cs (v_cfg st) <= v_ce (v_cfg st) -> v_inv st -> v_inv (v_next st o) /\ v_cfg (v_next st o) = v_cfg st.
+Proof.
+  intros Hw I. unfold v_next, v_step. destruct o as [n|n s|n|l].
+  - destruct (aget (v_alloc st) n) as [[s c]|] eqn:En; cbn; [split; [exact I|reflexivity]|].
+    destruct (find_avail st) as [[s c]|] eqn:Ef; cbn; [|split; [exact I|reflexivity]].
+    destruct (find_avail_spec st s c Hw (vi_cur st I) Ef) as (Hs & Hc & Hfree).
+    split; [|reflexivity]. apply v_record_inv; cbn; auto.
+    apply v_setcur_inv; [exact I|]. unfold in_s in Hs. lia.
+  - destruct (in_s (v_cfg st) s) eqn:Hs; cbn; [|split; [exact I|reflexivity]].
+    destruct (match aget (v_alloc st) n with Some (s0, c0) => if s0 =? s then Some c0 else None | None => None end);
+      cbn; [split; [exact I|reflexivity]|].
+    destruct (find_c st s) as [c|] eqn:Ef; cbn; [|split; [exact I|reflexivity]].
+    destruct (find_c_spec st s c Hw Ef) as [Hc Hfree].
+    split; [apply v_rebind_inv; auto|]. unfold v_record; cbn. apply v_release_cfg.
+  - cbn. split; [apply v_release_inv, I|apply v_release_cfg].
+  - destruct (fold_left v_load1 l (st, false)) as [st' bad] eqn:El. cbn.
+    pose proof (v_load_inv l (st, false) I) as H. rewrite El in H. exact H.
+Qed.
+
+Lemma v_run_inv ops : forall st,
+  v_cs (v_cfg st) <= v_ce (v_cfg st) -> v_inv st -> v_inv (v_run st ops) /\ v_cfg (v_run st ops) = v_cfg st.
+Proof.
+  induction ops as [|o ops IH]; intros st Hw I; [split; [exact I|reflexivity]|].
+  change (v_run st (o :: ops)) with (v_run (v_next st o) ops).
+  destruct (v_step_inv st o Hw I) as [I' C']. destruct (IH (v_next st o)) as [I'' C''].
+  - rewrite C'. exact Hw.
+  - exact I'.
+  - split; [exact I''|]. rewrite C''. exact C'.
+Qed.
+
+Lemma v_init_inv c ntes probe : v_ss c <= v_se c -> v_inv (v_init c ntes probe).
+Proof. intros H. split; cbn; try (intros; split; discriminate); try (intros; discriminate). lia. Qed.
+
+(* after ANY sequence of Allocate / AllocateWithSTag / Release / LoadFromStore over non-empty ranges:
+   allocations and the per-S-TAG usage maps are mutually inverse, and every held pair is in range *)
+Theorem vlan_alloc_unique_in_range : forall c ntes probe ops,
+  v_wf c ->
+  let st := v_run (v_init c ntes probe) ops in
+  (forall n s x, aget (v_alloc st) n = Some (s, x) <-> get2 (v_usage st) s x = Some n) /\
+  (forall n s x, aget (v_alloc st) n = Some (s, x) -> in_s c s = true /\ in_c c x = true) /\
+  (forall n n' s x, aget (v_alloc st) n = Some (s, x) -> aget (v_alloc st) n' = Some (s, x) -> n = n').
+Proof.
+  intros c ntes probe ops [Hs Hc] st.
+  destruct (v_run_inv ops (v_init c ntes probe) Hc (v_init_inv c ntes probe Hs)) as [[B R C] E].
+  fold st in B, R, C, E. cbn in E. split; [exact B|split].
+  - intros n s x H. rewrite <- E. eapply R, H.
+  - intros n n' s x H1 H2. apply B in H1. apply B in H2. congruence.
+Qed.
+
+(* Allocate answers Exhausted only when every pair of the configured ranges is held *)
+Theorem vlan_exhausted_only_if_full : forall c ntes probe ops n,
+  v_wf c ->
+  let st := v_run (v_init c ntes probe) ops in
+  o_ret (snd (fst (v_step st (VAlloc n)))) = RErr EExhausted ->
+  forall s x, in_s c s = true -> in_c c x = true -> get2 (v_usage st) s x <> None.
+Proof.
+  intros c ntes probe ops n [Hs Hc] st H s x Hin Hix.
+  destruct (v_run_inv ops (v_init c ntes probe) Hc (v_init_inv c ntes probe Hs)) as [I E].
+  fold st in I, E. cbn in E. unfold v_step in H.
+  destruct (aget (v_alloc st) n) as [[s0 c0]|]; [discriminate|].
+  destruct (find_avail st) as [[s0 c0]|] eqn:Ef; [discriminate|].
+  apply (find_avail_none st s x (vi_cur st I) Ef); rewrite E; assumption.
+Qed.
+
+(* Release: the NTE has no pair, its pair is free, nobody else changes; the pair can be handed out again *)
+Theorem vlan_release_frees : forall c ntes probe ops n s x,
+  v_wf c ->
+  let st := v_run (v_init c ntes probe) ops in
+  aget (v_alloc st) n = Some (s, x) ->
+  let st' := v_next st (VRelease n) in
+  aget (v_alloc st') n = None /\ get2 (v_usage st') s x = None /\
+  (forall n', n' <> n -> aget (v_alloc st') n' = aget (v_alloc st) n') /\
+  (forall s' x', (s', x') <> (s, x) -> get2 (v_usage st') s' x' = get2 (v_usage st) s' x').
+Proof.
+  intros c ntes probe ops n s x Hw st Ha st'. unfold st', v_next, v_step; cbn.
+  split; [apply v_release_none|]. split; [|split].
+  - rewrite (v_release_usage st n s x s x Ha), !N.eqb_refl. reflexivity.
+  - intros n' Hn. unfold v_release. rewrite Ha; cbn. rewrite aget_adel.
+    destruct (n =? n') eqn:E; [apply N.eqb_eq in E; congruence|reflexivity].
+  - intros s' x' Hn. rewrite (v_release_usage st n s x s' x' Ha).
+    destruct (s =? s') eqn:E1; [|reflexivity]. destruct (x =? x') eqn:E2; [|reflexivity].
+    apply N.eqb_eq in E1. apply N.eqb_eq in E2. subst. congruence.
 Qed.
